@@ -3,6 +3,7 @@ CONSTANTS Mode = "obj"
  MaxLen = 3
  N = 0
  SelfLoops = TRUE
+ InitAfterOwn = TRUE
  Fixed = TRUE
  Emit = FALSE
 INVARIANTS ObjRefines FnRefines AWellFormed
